@@ -358,3 +358,9 @@ func replayTimeout() time.Duration {
 	}
 	return 5 * time.Second
 }
+
+// Link, CloseWrite and WSClosed belong to the M-ws model (engine only: harnesses
+// that use them are replayed by concrete re-execution in the engine).
+func Link(a, b interface{})       {}
+func CloseWrite(a interface{})    {}
+func WSClosed(a interface{}) bool { return false }
